@@ -85,3 +85,65 @@ Proof.
   apply (sl_full_run_levels (env_of_path p rp) pts fmax n ({| sl_st := st; sl_cache := cache; sl_fb := fb; sl_idx := idx |}, con) x'); auto.
   intros k y Hk Hy. apply (Hlim k y Hy). lia.
 Qed.
+
+(* ---------------------------------------------------------------- walk_timed_path (the simulation of a dispatched train) *)
+Definition UInv (con0 : ConsistR) (dt0 : R) (x : SLStateR * ConsistR) : Prop :=
+  k_dt (ts_k (sl_st (fst x))) = dt0 /\ Forall loco_ok (cn_locos (snd x)) /\ Forall2 cum_le (cn_locos con0) (cn_locos (snd x)).
+
+Lemma tw_steps_inv con0 dt0 (e : Env (F:=R)) pts fmax te : 0 < dt0 -> forall fuel x x',
+  UInv con0 dt0 x -> tw_steps fuel e pts fmax te x = Ok x' -> UInv con0 dt0 x'.
+Proof.
+  intros Hdt. induction fuel as [|f IH]; intros x x' Hi H; cbn [tw_steps] in H.
+  - destruct (nltb _ te); [discriminate|]. inversion H; subst; exact Hi.
+  - destruct (nltb _ te); [|inversion H; subst; exact Hi].
+    apply bind_ok in H. destruct H as (x1 & Hs & Hr). apply (IH x1 x'); [|exact Hr].
+    destruct x as [s c]. destruct x1 as [s1 c1]. destruct Hi as (D & O & L). cbn [fst snd] in *.
+    assert (Hd : 0 < k_dt (ts_k (sl_st s))) by (rewrite D; exact Hdt).
+    destruct (sl_full_step_units _ _ _ _ _ _ _ Hs Hd O) as (sh & _ & O1 & L1 & _ & K1).
+    split; [cbn [fst]; rewrite K1; exact D|]. split; [exact O1|]. eapply Forall2_cum_le_trans; eauto.
+Qed.
+
+Lemma tw_extend_inv con0 dt0 fuel_bp (net : list LinkR) rp links (w w1 : TimedSim (F:=R)) :
+  UInv con0 dt0 (tw_x w) -> tw_extend fuel_bp net rp links w = Ok w1 -> UInv con0 dt0 (tw_x w1).
+Proof.
+  unfold tw_extend. intros Hi H. apply bind_ok in H. destruct H as (p & _ & H).
+  apply bind_ok in H. destruct H as ([pts idx] & _ & H). inversion H; subst w1; clear H.
+  destruct Hi as (D & O & L). cbn [tw_x fst snd sl_st]. repeat split; auto.
+Qed.
+
+Lemma tw_outer_inv con0 dt0 fuel_bp fuel_steps (net : list LinkR) rp fmax tl : 0 < dt0 -> forall fuel idx (w w' : TimedSim (F:=R)),
+  UInv con0 dt0 (tw_x w) -> tw_outer fuel fuel_bp fuel_steps net rp fmax tl idx w = Ok w' -> UInv con0 dt0 (tw_x w').
+Proof.
+  intros Hdt. induction fuel as [|f IH]; intros idx w w' Hi H; cbn [tw_outer] in H.
+  - destruct (Nat.eqb idx (length tl - 1)); [|discriminate]. inversion H; subst; exact Hi.
+  - destruct (Nat.eqb idx (length tl - 1)); [inversion H; subst; exact Hi|]. cbv zeta in H.
+    apply bind_ok in H. destruct H as (w1 & He & H). apply bind_ok in H. destruct H as (x1 & Hs & H).
+    apply IH in H; [exact H|]. cbn [tw_x].
+    eapply tw_steps_inv; [exact Hdt| |exact Hs]. eapply tw_extend_inv; eauto.
+Qed.
+
+(* THE statement for a dispatched train: an accepted walk_timed_path ends inside the stopping window of the path
+   supplied to it (at rest, or at / beyond its end); on the way no unit's well-formedness is lost and no unit's
+   cumulative loss / fuel / braking energy ever decreased *)
+Theorem sl_timed_walk_sound fuel_bp fuel_steps (net : list LinkR) (tp : TPR) tl rp fmax fb st cache (con : ConsistR) x' :
+  sl_timed_walk fuel_bp fuel_steps net tp tl rp fmax fb st cache con = Ok x' ->
+  exists w : TimedSim (F:=R),
+    sl_full_walk fuel_steps (env_of_path (tw_path w) rp) (tw_pts w) (path_offset_end (tw_path w)) fmax (tw_x w) = Ok x' /\
+    (path_offset_end (tw_path w) - ft1000 <= k_offset (ts_k (sl_st (fst x'))) /\
+     (path_offset_end (tw_path w) <= k_offset (ts_k (sl_st (fst x'))) \/ k_speed (ts_k (sl_st (fst x'))) = 0)) /\
+    (0 < k_dt (ts_k st) -> Forall loco_ok (cn_locos con) ->
+       Forall loco_ok (cn_locos (snd x')) /\ Forall2 cum_le (cn_locos con) (cn_locos (snd x'))).
+Proof.
+  unfold sl_timed_walk. destruct tl as [|t0 tr]; [discriminate|]. intros H.
+  apply bind_ok in H. destruct H as (w & Ho & Hw). exists w. split; [exact Hw|].
+  split; [exact (sl_full_walk_end _ _ _ _ _ _ _ Hw)|].
+  intros Hdt Hok.
+  assert (Hi : UInv con (k_dt (ts_k st)) (tw_x w)).
+  { eapply (tw_outer_inv con (k_dt (ts_k st))); [exact Hdt| |exact Ho].
+    cbn [tw_x]. split; [reflexivity|]. split; [exact Hok|apply Forall2_cum_le_refl]. }
+  destruct Hi as (D & O & L).
+  destruct (sl_full_walk_is_run _ _ _ _ _ _ _ Hw) as (n & _ & Hrun & _).
+  assert (Hd : 0 < k_dt (ts_k (sl_st (fst (tw_x w))))) by (rewrite D; exact Hdt).
+  destruct (sl_full_run_units _ _ _ n (tw_x w) x' Hd O Hrun) as (A & B).
+  split; [exact A|]. eapply Forall2_cum_le_trans; eauto.
+Qed.
